@@ -107,6 +107,34 @@ fn check_ref_enc(c: &EncCase) -> CaseResult {
 }
 
 #[derive(Serialize, Deserialize, Hash, Debug, Clone)]
+pub struct EdgeC1 {
+    pub d: Hex,
+    pub point: usize,
+    pub msg_len: usize,
+    pub msg_seed: u64,
+    pub compressed: bool,
+    pub c1c3c2: bool,
+}
+
+/// a conforming ciphertext whose C1 is a boundary point of the curve (coordinates next to 0, n, p, powers of two, special limb patterns)
+fn check_edge_c1(c: &EdgeC1) -> CaseResult {
+    let eps = edge_points();
+    let (label, x, y) = &eps[c.point % eps.len()];
+    let d = from_be(&c.d);
+    let msg = expand_bytes(c.msg_seed, c.msg_len.max(1));
+    let Some(w) = r2::encrypt_to_c1(&d, &r2::pt(x, y), &msg) else { return pass(false, "retry") };
+    let ct = w.encode(c.compressed, c.c1c3c2);
+    if r2::decrypt(&d, &ct, c.compressed, c.c1c3c2).as_deref() != Some(&msg[..]) {
+        return pass(false, "reference-disagrees-with-itself");
+    }
+    let sk = lib_sk(&d).map_err(|e| Fail { key: "entry=Sm2PrivateKey::new input=d-in-[1,n-2] outcome=rejected".into(), detail: e })?;
+    let got = outcome(|| sk.decrypt(&ct, c.compressed, model(c.c1c3c2)));
+    ensure!(got == Outcome::Ok(msg.clone()), "entry=Sm2PrivateKey::decrypt input=conforming-ciphertext outcome=failure",
+        "C1 = edge point {} x={:x} y={:x}; d={:x} |M|={} compressed={} c1c3c2={} ct={}: {}", label, x, y, d, msg.len(), c.compressed, c.c1c3c2, hexs::hx(&ct), got.describe());
+    pass(true, format!("edge-C1/{}", label.split(|ch| ch == '+' || ch == '-' || ch == '/').next().unwrap_or("")))
+}
+
+#[derive(Serialize, Deserialize, Hash, Debug, Clone)]
 pub struct KdfCase {
     pub z_len: usize,
     pub z_seed: u64,
@@ -145,7 +173,7 @@ pub fn run(ctx: &Ctx) {
     let n = r2::params().n.clone();
     ctx.set_rule(
         "cases are (d, message length/seed/class, compressed?, order, nonce k): every message length 1..=300 (klen mod 32 = 0 nine times) x 4 configurations with k injected through the RNG hook; \
-         proptest cases with lengths to 2^12 (thorough 2^16), all-zero / all-0xFF / leading-zero messages, edge keys; the library's own RNG; reference-encrypted and OpenSSL-encrypted ciphertexts; the \
+         proptest cases with lengths to 2^12 (thorough 2^16), all-zero / all-0xFF / leading-zero messages, edge keys; the library's own RNG; reference-encrypted and OpenSSL-encrypted ciphertexts; conforming ciphertexts whose C1 is a boundary point of the curve; the \
          GM/T 0003.5 Annex example both ways; KDF for every klen 1..=300 and random klen/|Z|. Oracles: exact equality with the reference encryptor for the same k, independent decryption of every library \
          ciphertext (C1 on curve, C2 = M xor KDF, C3 = SM3(x2||M||y2)), round trip. Non-trivial: compressed C1, or klen mod 32 = 0, or |M| > 117.",
     );
@@ -176,6 +204,25 @@ pub fn run(ctx: &Ctx) {
     ctx.generated("generated_fixed_k", "proptest cases with injected nonce: exact ciphertext, independent decryption, round trip", ctx.tier.pick(1_000, 30_000), move || enc_case(true, maxlen), check_enc);
     ctx.generated("generated_library_rng", "proptest cases, nonce from the library's RNG: independent decryption, round trip", ctx.tier.pick(1_500, 30_000), move || enc_case(false, maxlen), check_enc);
     ctx.generated("reference_encrypted", "ciphertexts made by the reference encryptor decrypt under the library", ctx.tier.pick(1_000, 20_000), move || enc_case(true, 600), check_ref_enc);
+
+    ctx.listed("foreign_c1_edge_points", "conforming ciphertexts whose C1 is a boundary point (x next to 0, n, p, 2^256-p, powers of two, Montgomery limb patterns, y with a leading zero byte), built with [d]C1, x 4 configurations x 2 keys", move || {
+        let mut v = Vec::new();
+        for point in 0..edge_points().len() {
+            for cfg in 0..4u8 {
+                for key in 0..2u64 {
+                    v.push(EdgeC1 {
+                        d: gen::hex32(&(from_be(&expand_bytes(seed ^ 0xed6e ^ key, 32)) % (&r2::params().n - 2u32) + 1u32)),
+                        point,
+                        msg_len: 1 + (point * 7 + cfg as usize * 13) % 70,
+                        msg_seed: seed ^ (point as u64) << 8 ^ cfg as u64,
+                        compressed: cfg & 1 == 1,
+                        c1c3c2: cfg & 2 == 2,
+                    });
+                }
+            }
+        }
+        v
+    }, check_edge_c1);
 
     ctx.listed("openssl_encrypted", "72 ciphertexts made by OpenSSL 3.0.20 (DER re-framed as 04||x||y||C3||C2) decrypt under the library and the reference", || {
         let mut v = Vec::new();
